@@ -157,6 +157,11 @@ type FailoverController struct {
 	failoverTimer *time.Timer
 	failbackTimer *time.Timer
 
+	// executing is true while an executeFailover run is between its state check
+	// and its final state update, so that a forced failover and the failover timer
+	// can never run the promotion twice.
+	executing bool
+
 	// Statistics
 	failoversInitiated uint64
 	failoversCompleted uint64
@@ -290,7 +295,13 @@ func (c *FailoverController) ForceFailover(reason string) error {
 	c.logger.Warn("Forcing failover",
 		zap.String("reason", reason),
 	)
-	return c.initiateFailover(reason)
+	if err := c.initiateFailover(reason); err != nil {
+		return err
+	}
+	// Actually perform the failover that was just marked in progress
+	// (grace period, role-change callback, role update, completed event).
+	go c.executeFailover(reason)
+	return nil
 }
 
 // ForceFailback forces an immediate failback (for manual intervention).
@@ -408,9 +419,15 @@ func (c *FailoverController) initiateFailover(reason string) error {
 	if c.currentRole == RoleActive {
 		return fmt.Errorf("already active, cannot failover")
 	}
+	if c.state == FailoverStateInProgress {
+		return fmt.Errorf("failover already in progress")
+	}
 
+	// The forced failover supersedes a pending automatic one.
+	if c.failoverTimer != nil {
+		c.failoverTimer.Stop()
+	}
 	c.state = FailoverStateInProgress
-	atomic.AddUint64(&c.failoversInitiated, 1)
 
 	c.notifyHandlers(FailoverEvent{
 		Type:         FailoverEventInitiated,
@@ -428,11 +445,12 @@ func (c *FailoverController) initiateFailover(reason string) error {
 func (c *FailoverController) executeFailover(reason string) {
 	c.mu.Lock()
 
-	if c.state != FailoverStatePending && c.state != FailoverStateInProgress {
+	if (c.state != FailoverStatePending && c.state != FailoverStateInProgress) || c.executing {
 		c.mu.Unlock()
 		return
 	}
 
+	c.executing = true
 	c.state = FailoverStateInProgress
 	oldRole := c.currentRole
 	newRole := RoleActive
@@ -463,6 +481,7 @@ func (c *FailoverController) executeFailover(reason string) {
 			)
 			c.mu.Lock()
 			c.state = FailoverStateNormal
+			c.executing = false
 			c.mu.Unlock()
 			return
 		}
@@ -472,6 +491,7 @@ func (c *FailoverController) executeFailover(reason string) {
 	c.currentRole = newRole
 	c.state = FailoverStateComplete
 	c.lastRoleChange = time.Now()
+	c.executing = false
 	c.mu.Unlock()
 
 	atomic.AddUint64(&c.failoversCompleted, 1)
